@@ -484,7 +484,7 @@ def run(tier, seed):
     res2 = BoundedResult(
         "C08.filter-sequences",
         rule="sequences of 2 and 3 filter applications from a pool of 14 parametrised filters (" + ("all ordered pairs and 150 seeded triples" if tier == "thorough" else "70 seeded ordered pairs and 40 seeded triples")
-        + " per dataset, " + ("all" if tier == "thorough" else "5") + " datasets); every step checked like a single application against the previous result, provenance accumulates in application order, "
+        + " per dataset, " + ("16" if tier == "thorough" else "5") + " datasets); every step checked like a single application against the previous result, provenance accumulates in application order, "
         "and after every step all EARLIER datasets of the chain are re-snapshotted and must be unchanged (in-place metadata collection excepted)",
         exhaustive=False,
         functions=["register_maze_filter", "register_dataset_filter"],
@@ -521,7 +521,7 @@ def run(tier, seed):
     res.seconds = time.time() - t0
     t1 = time.time()
     try:
-        chain_recipes = recipes if tier == "thorough" else [recipes[i] for i in (0, 1, 2, 4, 10)]
+        chain_recipes = (recipes[:11] + recipes[-5:]) if tier == "thorough" else [recipes[i] for i in (0, 1, 2, 4, 10)]
         pairs = list(itertools.product(range(len(CHAIN_POOL)), repeat=2))
         triples = list(itertools.product(range(len(CHAIN_POOL)), repeat=3))
         for recipe in chain_recipes:
